@@ -308,6 +308,35 @@ def run_shard(spec):
                         samples.append({"case": desc, "expr": str(e), "expected": sorted(map(str, expected))})
                     if len(violations) >= 12:
                         break
+    # ---- expressions that read NO location (a LiteralExpr in the slot, directly or under unary / binary / builtin / call
+    # nodes, also as the root of the walk): the result is the empty set, never None
+    lit_wraps = [("direct", lambda x: x), ("neg", lambda x: -x), ("pos-neg", lambda x: +(-x)), ("invert", lambda x: ~x),
+                 ("plus1", lambda x: x + 1), ("abs", lambda x: abs(x)), ("round2", lambda x: round(x, 2)), ("neg-abs", lambda x: -abs(x))]
+    for cls, recs in recipes.items():
+        for slot, build, extra in recs:
+            if extra is None or isinstance(extra, str):
+                continue
+            for wname, wf in lit_wraps:
+                desc = [cls.__name__ + "." + slot, "literal-only", wname]
+                try:
+                    e = build(wf(R.LiteralExpr(3)))
+                except Exception:
+                    counters["python_rejects_at_build"] = counters.get("python_rejects_at_build", 0) + 1
+                    continue
+                counters["literal_only_cases"] = counters.get("literal_only_cases", 0) + 1
+                check(desc, e, set(extra))
+    for wname, wf in lit_wraps:
+        e = wf(R.LiteralExpr(3))
+        counters["literal_only_cases"] = counters.get("literal_only_cases", 0) + 1
+        check(["root", "literal-only", wname], e, set())
+        # ... and such an expression can be bound to a location
+        try:
+            m.set_value(r["t"], e)
+            m.unregister(r["t"])
+            d["t"] = 0.0
+        except Exception as exc:
+            violations.append({"what": "C05 binding the dependency-free expression %s raised %s: %s" % (e, type(exc).__name__, str(exc)[:100]),
+                               "case": ["root", "literal-only", wname]})
     # ---- two DIFFERENT locations in two slots of one node (incl. refs whose hashes collide) ----
     M61 = 2 ** 61 - 1
     d["h"] = {0: 1.0, M61: 2.0, -1: 3.0, -2: 4.0}
